@@ -50,7 +50,7 @@ PREFIXES = [
     ("note+zid", f"- {PRIMARY} "), ("prio+zid", f"o P2 {PRIMARY} "), ("stamped+zid", f"o P3 240502 {PRIMARY} "),
     ("comment", "# "), ("bullet", "  * "), ("bullet2", "    - "), ("done+zid", f"x {PRIMARY} "),
 ]
-WRAPPERS = ["bare", "trail", "paren"]
+WRAPPERS = ["bare", "trail", "paren", "quote"]
 
 
 def wrap(text: str, w: str, k: int) -> str:
@@ -58,6 +58,13 @@ def wrap(text: str, w: str, k: int) -> str:
         return text
     if w == "trail":
         return text + ".,)"[k % 3]
+    if w == "quote":
+        # quotes / angle brackets around a bracketed target (a bare ZID in quotes is
+        # not obviously a ZID reference, so it stays bare)
+        if not text.startswith("["):
+            return text
+        a, b = [('"', '"'), ("'", "'"), ("<", ">")][k % 3]
+        return a + text + b
     return "(" + text + ")"
 
 
@@ -110,7 +117,7 @@ def _env(ctx):
         for seq in seqs:
             wrappers = WRAPPERS if (len(seq) <= 2 or not quick) else ["bare"]
             if quick and len(seq) == 2:
-                wrappers = [WRAPPERS[(TKEYS.index(seq[0]) + TKEYS.index(seq[1])) % 3]]
+                wrappers = [WRAPPERS[(TKEYS.index(seq[0]) + TKEYS.index(seq[1])) % len(WRAPPERS)]]
             for w in wrappers:
                 if not seq and w != "bare":
                     continue
